@@ -16,6 +16,7 @@ import DebInspector.Props.C11
 import DebInspector.Props.C12
 import DebInspector.Props.C14
 import DebInspector.Props.C15
+import DebInspector.Props.C16
 import DebInspector.Props.C17
 import DebInspector.Props.C18
 import DebInspector.Props.C19
@@ -50,6 +51,9 @@ def dispatch (op : String) (v : Val) : Option Val :=
   | "C19m" => Props.C19.checkM.run v
   | "C20" => Props.C20.check.run v
   | "C20p" => Props.C20.checkPartial.run v
+  | "C16" => Props.C16.check.run v
+  | "C16w" => Props.C16.checkW.run v
+  | "C16k" => Props.C16.checkWK6.run v
   | "C17a" => Props.C17.checkA.run v
   | "C17b" => Props.C17.checkB.run v
   | "C17c" => Props.C17.checkC.run v
